@@ -7,6 +7,30 @@ OUT = os.path.join(VERIF, 'out')
 EVID = os.path.join(VERIF, 'evidence')
 KNOWN = os.path.join(VERIF, 'known_findings.json')
 TIMEOUT_MS = {'quick': 20000, 'thorough': 120000}
+# vacuity guard: path classes that a run of each property must reach (a harness that no longer reaches the code under
+# test would otherwise pass everything); a missing class makes the run INCONCLUSIVE
+REQUIRED = {
+ 'C01': ['^get/hit', '^get/absent', '^insert/overwrite', '^insert/new', '^wcall/hit', '^wcall/miss'],
+ 'C02': ['^key/2parts', '^key/3parts', '^wcall/miss'],
+ 'C03': ['^get/hit', '^wcall/hit/', '^wcall/miss/', '^quiescent/'],
+ 'C04': ['^insert/new/evict', '^insert/new$', '^insert/overwrite', '^get/expired'],
+ 'C05': ['^insert_mem/new/removed[12]', '^insert_mem/overwrite', '^est/Vec', '^est/String', '^wcall/miss'],
+ 'C06': ['^get/expired', '^get/hit', '^insert/overwrite'],
+ 'C07': ['^insert/new/evict', '^get/hit', '^insert_mem/new/removed1'],
+ 'C08': ['^insert/new/evict', '^get/hit', '^insert_mem/new/removed1'],
+ 'C09': ['^wcall/miss//1exec/0ins', '^wcall/miss//1exec/1ins', '^insert_result/err', '^insert/new'],
+ 'C10': ['pred/1exec/0ins', 'pred/1exec/1ins', '^wcall/hit'],
+ 'C11': ['^wcall/hit/stale[a-z]*/0exec', '^wcall/hit/stale[a-z]*/1exec', '^wcall/miss'],
+ 'C12': ['^group/tag/[1-9]', '^group/cache/1', '^group/dep/1', '^group/event/[1-9]', '^group/tag/0'],
+ 'C13': ['^with/1targets', '^with/0targets', '^all_with/', '^group/.*/0match'],
+ 'C14': ['^wcall/hit', '^wcall/miss'],
+ 'C15': ['^get/hit', '^get/expired', '^get/absent', '^stats/registry', '^quiescent/'],
+ 'C16': ['^insert/new/evict', '^insert_mem/', '^get/expired', '^wcall/', '^with/'],
+ 'C17': ['^quiescent/'],
+ 'C18': ['^quiescent/'],
+ 'C19': ['^wcall/hit', '^wcall/miss'],
+ 'C20': ['^suspended/state[0-9]+/.*/resume', '^suspended/state[0-9]+/.*/drop', '^served-without-suspension'],
+}
 
 
 def run_item(P, item):
@@ -14,7 +38,7 @@ def run_item(P, item):
     if kind == 'step':
         from . import vc_core
         cfg = Cfg(item['flavour'], item['policy'], limit=item['limit'], ttl=item['ttl'], mem=item['mem'], fw=item['fw'])
-        r = vc_core.run_step(P, cfg, item['n'], item['op'], props=set(item['props']), seed=item.get('seed', 0), timeout_ms=TIMEOUT_MS[item.get('tier', 'quick')], nmax=max(item['n'], 1) if False else None)
+        r = vc_core.run_step(P, cfg, item['n'], item['op'], props=set(item['props']), seed=item.get('seed', 0), timeout_ms=TIMEOUT_MS[item.get('tier', 'quick')], nmax=None, hits_max=item.get('hits_max', False))
         fails = list(r.failed)
         if 'C16' in item['props']: fails += [p for p in r.panics if True]
         else:
@@ -24,7 +48,7 @@ def run_item(P, item):
         if 'C17' in item['props'] or 'C16' in item['props']: fails += r.deadlocks
         return dict(paths=r.paths, claims=r.claims, failed=fails, other_panics=len(r.panics), other_deadlocks=len(r.deadlocks), classes=sorted(r.classes),
                     funcs=sorted(r.funcs), builtins=sorted(r.builtins), checks=r.stats['checks'], solver_s=r.stats['solver_s'], blocks=r.stats['blocks'],
-                    infeasible=r.stats['infeasible'], spurious_real=getattr(r, 'spurious_real', 0), tag=f"STEP {cfg.tag()} n={item['n']} {item['op']}")
+                    infeasible=r.stats['infeasible'], spurious_real=getattr(r, 'spurious_real', 0), tag=f"STEP {cfg.tag()} n={item['n']} {item['op']}{' hits=u64::MAX' if item.get('hits_max') else ''}")
     mod = __import__('mirsym.vc_' + kind, fromlist=['run'])
     return mod.run(P, item)
 
@@ -113,6 +137,13 @@ def conclude(prop, tier, seed, results, t0, P):
         print(f"UNCONFIRMED property={prop} {role['shape']} {role['op']}: {role['clause']} -- solver witness did not reproduce natively ({why})")
     for r in inconc[:10]:
         print(f"INCONCLUSIVE property={prop} item={_short(r['item'])}: {r['inconclusive'][:600]}")
+    # vacuity guard
+    reached = set()
+    for r in good: reached |= set(r.get('classes', []))
+    for pat in REQUIRED.get(prop, []):
+        if not any(re.search(pat, c) for c in reached):
+            print(f"INCONCLUSIVE property={prop}: vacuity guard - no explored path belongs to class /{pat}/ (the harness no longer reaches that behaviour)")
+            inconc = list(inconc) + [dict(item=dict(kind='vacuity'), inconclusive='path class never reached: ' + pat)]
     # encoder validation on this run: concrete histories, native vs mirsym (DESIGN.md section 6.1)
     global _VALIDATED
     try:
